@@ -707,11 +707,22 @@ func (e *c06Env) resumePending(forgot bool) {
 	if st == nil || !(e.woke || forgot) {
 		return
 	}
-	e.cc.mu.Lock()
-	free := int64(len(e.cc.streams)) < int64(e.cc.maxConcurrentStreams)
-	unusable := e.cc.closed || e.cc.goAway != nil || e.cc.doNotReuse
-	e.cc.mu.Unlock()
-	if !free && !unusable && !e.closed {
+	// is the RoundTrip still blocked in awaitOpenSlotForStreamLocked? It is counted in
+	// pendingRequests while it waits; a woken waiter that finds a free slot leaves at once.
+	blocked := true
+	for i := 0; i < 40 && blocked; i++ {
+		e.cc.mu.Lock()
+		waiting := e.cc.pendingRequests > 0
+		free := int64(len(e.cc.streams)) < int64(e.cc.maxConcurrentStreams)
+		unusable := e.cc.closed || e.cc.goAway != nil || e.cc.doNotReuse
+		e.cc.mu.Unlock()
+		if !waiting || free || unusable || e.closed {
+			blocked = false
+		} else if i < 39 {
+			time.Sleep(250 * time.Microsecond)
+		}
+	}
+	if blocked {
 		return
 	}
 	deadline := time.Now().Add(c06Wait)
